@@ -19,6 +19,7 @@ func init() {
 					{Name: "eth-FX+usdt", Spec: &bridge.Spec{Prop: "C04", Chains: []string{"eth"}, Tokens: []string{"FX", "usdt"}, Ledger: true, Calls: true, Inbound: true, MaxSend: 3}, Depth: 6, ShardDepth: 2},
 					{Name: "batch-life-cycle-deep", Spec: &bridge.Spec{Prop: "C04", Chains: []string{"eth"}, Tokens: []string{"usdt", "tok"}, Ledger: true, MaxSend: 4, Focus: "batches"}, Depth: 9, ShardDepth: 2},
 					{Name: "inbound-send-call-to", Spec: &bridge.Spec{Prop: "C04", Chains: []string{"eth"}, Tokens: []string{"FX", "usdt", "tok"}, Ledger: true, Calls: true, Inbound: true, SendCallTo: true, MaxSend: 1}, Depth: 5, ShardDepth: 2},
+					{Name: "native-coin-lookalike", Spec: &bridge.Spec{Prop: "C04", Chains: []string{"eth"}, Tokens: []string{"FX", "usdt"}, Ledger: true, Lookalike: true, MaxSend: 2}, Depth: 5, ShardDepth: 2},
 					{Name: "eth+bsc-usdt+tok-evm", Spec: &bridge.Spec{Prop: "C04", Chains: []string{"eth", "bsc"}, Tokens: []string{"usdt", "tok"}, Ledger: true, Calls: true, EVM: true, Inbound: true, MaxSend: 2}, Depth: 6, ShardDepth: 2},
 				}
 			}
@@ -27,6 +28,8 @@ func init() {
 				{Name: "eth-usdt+tok-evm", Spec: &bridge.Spec{Prop: "C04", Chains: []string{"eth"}, Tokens: []string{"usdt", "tok"}, Ledger: true, EVM: true, Calls: true, MaxSend: 2}, Depth: 4, ShardDepth: 2},
 				{Name: "batch-life-cycle-deep", Spec: &bridge.Spec{Prop: "C04", Chains: []string{"eth"}, Tokens: []string{"usdt", "tok"}, Ledger: true, MaxSend: 3, Focus: "batches"}, Depth: 7, ShardDepth: 2},
 				{Name: "inbound-send-call-to", Spec: &bridge.Spec{Prop: "C04", Chains: []string{"eth"}, Tokens: []string{"usdt", "tok"}, Ledger: true, Calls: true, Inbound: true, SendCallTo: true, MaxSend: 1}, Depth: 3, ShardDepth: 1},
+				// a bridge token whose symbol reads like the native coin's in another letter case is registered and deposited
+				{Name: "native-coin-lookalike", Spec: &bridge.Spec{Prop: "C04", Chains: []string{"eth"}, Tokens: []string{"FX"}, Ledger: true, Lookalike: true, MaxSend: 2}, Depth: 4, ShardDepth: 1},
 				// a deposit whose receiver asked for the coins to be forwarded over an IBC channel (loop-back channels of the C19 world)
 				{Name: "deposit-forwarded-over-ibc", Spec: &c19.Spec{Prop: "C04", Mode: "deposit"}, Depth: 2, ShardDepth: 1, NoConform: true},
 				// 99 transfers wait in the pool; two more sends make it more than one batch (100 entries) can take
